@@ -119,6 +119,50 @@ def clause_props(side, func, kind):
     return ps
 
 
+def run_seeded_faults(prop):
+    """Apply every seeded change recorded for this property to a scratch copy of /repo/pane (outside /repo and /verif,
+    removed at once) and run this same check on it. Reported in the evidence; does not change this run's verdict."""
+    import glob
+    import shutil
+    import tempfile
+    out = []
+    cases = []
+    for d in sorted(glob.glob(os.path.join(HERE, 'seeded', '*'))):
+        try:
+            meta = json.load(open(os.path.join(d, 'meta.json')))
+        except Exception:
+            continue
+        if meta.get('property') != prop or meta.get('obsolete_after_fix'):
+            continue
+        patch = os.path.join(d, 'patch_rebased.diff') if os.path.exists(os.path.join(d, 'patch_rebased.diff')) else os.path.join(d, 'patch.diff')
+        cases.append((os.path.basename(d), patch, meta.get('summary', '')))
+    for pth in sorted(glob.glob(os.path.join(HERE, 'mutants', '*.patch'))):
+        meta = load_json(pth[:-6] + '.json', {})
+        if (meta.get('breaks') or [None])[0] == prop:
+            cases.append((os.path.basename(pth)[:-6], pth, meta.get('note', '')))
+    for name, patch, summary in cases:
+        d = tempfile.mkdtemp(prefix='pvc_seed_')
+        evd = tempfile.mkdtemp(prefix='pvc_ev_')
+        try:
+            shutil.copytree('/repo/pane', os.path.join(d, 'pane'))
+            p = subprocess.run(['patch', '-p1', '-s', '-i', patch], cwd=d, capture_output=True, text=True)
+            if p.returncode != 0:
+                out.append({'change': name, 'result': 'patch does not apply to the current tree'})
+                continue
+            r = subprocess.run([sys.executable, os.path.join(HERE, 'check.py'), prop, '--tier', 'quick', '--repo', d],
+                               capture_output=True, text=True, cwd=HERE, env={**os.environ, 'PVC_EVIDENCE_DIR': evd, 'PVC_NO_MUTANTS': '1'})
+            failed = [l.strip()[len('failed obligation '):].split(':')[0] + ':' + l.strip()[len('failed obligation '):].split(':')[1]
+                      for l in r.stdout.splitlines() if l.strip().startswith('failed obligation')][:3]
+            out.append({'change': name, 'summary': summary[:160], 'result': {0: 'SURVIVED', 1: 'detected', 2: 'undecided', 3: 'checker-error'}.get(r.returncode, str(r.returncode)),
+                        'failed_obligations': failed})
+            if r.returncode == 0:
+                print(f'WARNING seeded change {name} survives the {prop} check')
+        finally:
+            shutil.rmtree(d, ignore_errors=True)
+            shutil.rmtree(evd, ignore_errors=True)
+    return out
+
+
 def do_replay(path):
     d = load_json(path, None)
     if d is None:
@@ -339,8 +383,12 @@ def main():
         'wall_s': round(time.time() - t0, 2),
         'violations': len(vio_lines),
     }
-    os.makedirs(os.path.join(HERE, 'evidence'), exist_ok=True)
-    with open(os.path.join(HERE, 'evidence', f'{prop}.json'), 'w') as f:
+    # ---- thorough tier: seeded faults (the property's sub-agent changes + catalogue mutants) on scratch copies -------------
+    if tier == 'thorough' and a.repo == '/repo' and not os.environ.get('PVC_NO_MUTANTS'):
+        ev['coverage']['seeded_faults'] = run_seeded_faults(prop)
+    evdir = os.environ.get('PVC_EVIDENCE_DIR') or os.path.join(HERE, 'evidence')
+    os.makedirs(evdir, exist_ok=True)
+    with open(os.path.join(evdir, f'{prop}.json'), 'w') as f:
         json.dump(ev, f, indent=1)
     print(f"{prop} [{tier}]: functions={len(results)} obligations={n_obl} discharged={len(discharged)} "
           f"known={len(known)} violations={len(violations)} undecided={len(still_undecided) + len(oos)} wall={ev['wall_s']}s")
